@@ -16,7 +16,7 @@ use qconnection::path::{AntiAmplifier, Constraints, DEFAULT_ANTI_FACTOR};
 
 use crate::common::{catch, Opts, Rng, Sink};
 
-type AA = AntiAmplifier<3>;
+type AA = AntiAmplifier; // the default factor (DEFAULT_ANTI_FACTOR), as Path uses it
 
 fn dbg_after(d: &str, from: usize, name: &str) -> Option<u128> {
     let key = format!("{}: ", name);
